@@ -177,3 +177,64 @@ reg("C10", _ALL_KERNELS, "other",
     "the LOT kernels. Bounded: the edge-input catalogue run interpreted (quick) and compiled / compiled+boundscheck in child processes (thorough) with result comparison.",
     "Trusted: pyvc, z3, numpy contracts; integers mathematical; call-site preconditions of the kernels are not yet proved on the python glue (bounded catalogue only).",
     assumptions=["run-stack depth assumption (contracts/coo_utils.py ROOM)"])
+
+
+# ---------------------------------------------------------------- structural obligations on the estimator glue (pyvc/structural.py)
+def st(file, function, kind, **kw):
+    return dict(file="vectorizers/" + file, function=function, kind=kind, **kw)
+
+
+_FIT_CLASSES = [("_vectorizers.py", "DistributionVectorizer"), ("_vectorizers.py", "HistogramVectorizer"), ("base_cooccurrence_vectorizer.py", "BaseCooccurrenceVectorizer"),
+                ("edge_list_vectorizer.py", "EdgeListVectorizer"), ("kde_vectorizer.py", "KDEVectorizer"), ("linear_optimal_transport.py", "WassersteinVectorizer"),
+                ("linear_optimal_transport.py", "SinkhornVectorizer"), ("linear_optimal_transport.py", "ApproximateWassersteinVectorizer"),
+                ("mixed_gram_vectorizer.py", "LZCompressionVectorizer"), ("mixed_gram_vectorizer.py", "BytePairEncodingVectorizer"), ("ngram_vectorizer.py", "NgramVectorizer"),
+                ("skip_gram_vectorizer.py", "SkipgramVectorizer"), ("tree_token_cooccurrence.py", "LabelledTreeCooccurrenceVectorizer"),
+                ("transformers/count_feature_compression.py", "CountFeatureCompressionTransformer"), ("transformers/info_weight.py", "InformationWeightTransformer"),
+                ("transformers/row_desnoise.py", "RowDenoisingTransformer"), ("transformers/sliding_windows.py", "SlidingWindowTransformer"),
+                ("transformers/sliding_windows.py", "SequentialDifferenceTransformer"), ("transformers/categorical_columns.py", "CategoricalColumnTransformer")]
+
+PROPS["C01"]["structural"] = [
+    st("edge_list_vectorizer.py", "EdgeListVectorizer.transform", "shape-pinned"),
+    st("edge_list_vectorizer.py", "EdgeListVectorizer.fit", "shape-pinned"),
+    st("skip_gram_vectorizer.py", "SkipgramVectorizer.transform", "shape-pinned"),
+    st("mixed_gram_vectorizer.py", "LZCompressionVectorizer.transform", "shape-pinned"),
+    st("mixed_gram_vectorizer.py", "LZCompressionVectorizer.fit_transform", "shape-pinned"),
+    st("mixed_gram_vectorizer.py", "BytePairEncodingVectorizer.transform", "shape-pinned"),
+    st("mixed_gram_vectorizer.py", "BytePairEncodingVectorizer.fit_transform", "shape-pinned"),
+    st("ngram_vectorizer.py", "NgramVectorizer.transform", "shape-pinned"),
+    st("ngram_vectorizer.py", "NgramVectorizer.fit", "shape-pinned"),
+    st("base_cooccurrence_vectorizer.py", "BaseCooccurrenceVectorizer._build_coo", "shape-pinned"),
+    st("tree_token_cooccurrence.py", "sequence_tree_skip_grams", "shape-pinned"),
+    st("multi_token_cooccurence_vectorizer.py", "MultiSetCooccurrenceVectorizer._build_coo", "shape-pinned"),
+]
+PROPS["C02"]["structural"] = [st(f, c + ".fit", "ret-self") for f, c in _FIT_CLASSES] + [
+    st("linear_optimal_transport.py", "WassersteinVectorizer.transform", "kwarg", callee="lot_vectors_sparse_internal", keyword="spherical_vectors", value="metric == cosine"),
+    st("linear_optimal_transport.py", "WassersteinVectorizer.transform", "kwarg", callee="lot_vectors_dense_internal", keyword="spherical_vectors", value="metric == cosine"),
+    st("linear_optimal_transport.py", "lot_vectors_sparse", "kwarg", callee="lot_vectors_sparse_internal", keyword="spherical_vectors", value="metric == cosine"),
+    st("linear_optimal_transport.py", "lot_vectors_dense", "kwarg", callee="lot_vectors_dense_internal", keyword="spherical_vectors", value="metric == cosine"),
+    st("linear_optimal_transport.py", "lot_vectors_dense_generator", "kwarg", callee="lot_vectors_dense_internal", keyword="spherical_vectors", value="metric == cosine"),
+    st("ngram_vectorizer.py", "NgramVectorizer.transform", "kwarg", callee="preprocess_token_sequences", keyword="masking", value="self.mask_string"),
+    st("ngram_vectorizer.py", "NgramVectorizer.fit", "kwarg", callee="preprocess_token_sequences", keyword="masking", value="self.mask_string"),
+    st("base_cooccurrence_vectorizer.py", "BaseCooccurrenceVectorizer.transform", "kwarg", callee="_preprocessing", keyword="masking", value="self.mask_string"),
+    st("base_cooccurrence_vectorizer.py", "BaseCooccurrenceVectorizer.fit", "kwarg", callee="_preprocessing", keyword="masking", value="self.mask_string"),
+    st("base_cooccurrence_vectorizer.py", "BaseCooccurrenceVectorizer.fit_transform", "kwarg", callee="_preprocessing", keyword="masking", value="self.mask_string"),
+    st("base_cooccurrence_vectorizer.py", "BaseCooccurrenceVectorizer.fit", "same-steps", other="BaseCooccurrenceVectorizer.fit_transform"),
+]
+PROPS["C04"]["structural"] = [
+    st("token_cooccurrence_vectorizer.py", "numba_build_skip_grams", "rebind", callee="coo_append"),
+    st("timed_token_cooccurrence_vectorizer.py", "numba_build_skip_grams", "rebind", callee="coo_append"),
+    st("multi_token_cooccurence_vectorizer.py", "numba_build_multi_skip_grams", "rebind", callee="coo_append"),
+    st("ngram_token_cooccurence_vectorizer.py", "numba_build_skip_grams", "rebind", callee="coo_append"),
+    st("coo_utils.py", "coo_append", "rebind", callee="coo_increase_mem"),
+]
+PROPS["C10"]["structural"] = list(PROPS["C04"]["structural"])
+PROPS["C13"]["structural"] = [
+    st("transformers/row_desnoise.py", "RowDenoisingTransformer.fit", "no-mutator"),
+    st("transformers/row_desnoise.py", "RowDenoisingTransformer.transform", "no-mutator"),
+    st("transformers/info_weight.py", "information_weight", "no-mutator"),
+    st("transformers/info_weight.py", "InformationWeightTransformer.fit", "no-mutator"),
+    st("transformers/info_weight.py", "InformationWeightTransformer.transform", "no-mutator"),
+    st("transformers/count_feature_compression.py", "CountFeatureCompressionTransformer.fit_transform", "no-mutator"),
+    st("transformers/count_feature_compression.py", "CountFeatureCompressionTransformer.transform", "no-mutator"),
+    st("transformers/info_weight.py", "information_weight", "kwarg", callee="tocsc", keyword="copy", value="True"),
+]
